@@ -19,7 +19,7 @@
    byte-level ones.  No defect of the lexer of Spec/HtmlSpec.v was found (it is unchanged). *)
 From Coq Require Import List NArith Bool.
 From V Require Import Base.Bytes Base.Res Model.Ast Model.Html Spec.EscapeSpec Spec.HtmlSpec Spec.Shape
-  Proofs.HtmlNest Proofs.HtmlSp Proofs.HtmlLexRt.
+  Proofs.HtmlSafe Proofs.HtmlNest Proofs.HtmlSp Proofs.HtmlLexRt.
 Import ListNotations.
 From Coq Require Import Strings.String.
 Local Open Scope string_scope.
@@ -213,10 +213,9 @@ Definition hb_tree : node :=
 
 Definition hb_slug (h : bytes) : bytes := filter inert_byte h.
 
-Lemma hb_slug_inert : forall h, forallb inert_byte (hb_slug h) = true.
-Proof. intro h. apply forallb_forall. intros x Hx. apply filter_In in Hx. exact (proj2 Hx). Qed.
-Lemma hb_slug_no_active : forall h, forallb no_active_byte (hb_slug h) = true.
-Proof. exact (inert_slug_no_active hb_slug hb_slug_inert). Qed.
+Definition hb_slug_inert : forall h, forallb inert_byte (hb_slug h) = true := filter_inert_slug.
+Definition hb_slug_no_active : forall h, forallb no_active_byte (hb_slug h) = true :=
+  inert_slug_no_active hb_slug hb_slug_inert.
 
 Example HtmlBytes_nonvacuous :
   o_unsafe hb_opts = false /\ o_sourcepos hb_opts = true /\
